@@ -237,6 +237,8 @@ def run(ctx, rep):
     c03.recovery_keeps_range(ctx, rep, "C11")
     c04.parse_error_ranges(ctx, rep, "C11")
     c03.append_only_rule(ctx, rep, "C11")
+    import c12
+    c12.add_content_rule(ctx, rep, "C11", "S3")   # the fatal error is appended AFTER the diagnostics the grammar already recovered
     import pipeline
     pipeline.rule(ctx, rep, "C11", [])
     rep.assumptions += ["TB-1 rustc MIR", "TB-3 std: HashMap::insert overwrites, min is unique on distinct totally ordered elements, sort_by_key is stable",
